@@ -8,7 +8,7 @@ from vlib.impl import Sandbox
 def _world(sb, claude=True):
     cw = ds.CfgWorld(sb, random.Random(1))
     cw.opts = {'write_agents_global': True, 'write_user_prompts': True, 'write_user_skills': True}
-    cw.claude = claude
+    cw.claude = claude; cw.zed = False; cw.repo_agents = False
     cw.modules = [{'id': 'prompt:p0', 'type': 'prompt', 'dir': 'modules/prompts/p0', 'files': {'p0.md': b'zero\n'}, 'targets': [], 'enabled': True},
                   {'id': 'command:c0', 'type': 'command', 'dir': 'modules/claude-commands/c0', 'files': {'c0.md': ds.command_md('do x')}, 'targets': [], 'enabled': True}]
     return cw
